@@ -78,13 +78,17 @@ _CMP = {
     ast.Gt: _op.gt, ast.GtE: _op.ge, ast.In: lambda a, b: a in b,
     ast.NotIn: lambda a, b: a not in b, ast.Is: _op.is_, ast.IsNot: _op.is_not,
 }
-_PURE = {'len': len, 'int': int, 'float': float, 'str': str, 'bool': bool, 'abs': abs,
+_PURE = {'len': len, 'int': int, 'float': float, 'str': str, 'bool': bool, 'abs': abs, 'round': round,
+         'sorted': sorted, 'sum': sum, 'any': any, 'all': all, 'range': range, 'enumerate': enumerate, 'zip': zip,
          'isinstance': None, 'type': None, 'set': set, 'frozenset': frozenset, 'tuple': tuple,
          'list': list, 'min': min, 'max': max}
 _STR_METHODS = {'startswith', 'endswith', 'find', 'upper', 'lower', 'strip', 'title',
                 'index', 'count', 'zfill', 'is_integer', 'replace', 'partition', 'rpartition',
                 'split', 'rsplit', 'removeprefix', 'removesuffix', 'lstrip', 'rstrip', 'join',
                 'isdigit', 'isalpha'}
+
+
+_NUM_DUNDERS = {'__trunc__', '__neg__', '__pos__', '__abs__', '__round__', '__floor__', '__ceil__', 'is_integer'}
 
 
 class Outcome:
@@ -103,7 +107,7 @@ class Outcome:
 
 class Interp:
     def __init__(self, analysis, module, env, effect_receivers=(), self_class=None,
-                 isinstance_fn=None, call_models=None, raise_classifier=None):
+                 isinstance_fn=None, call_models=None, raise_classifier=None, inline_pkg=False, depth=0):
         """
         env                initial locals
         effect_receivers   names whose method calls are recorded as events ('stack', 'output')
@@ -117,6 +121,8 @@ class Interp:
         self.self_class = self_class
         self.isinstance_fn = isinstance_fn
         self.call_models = call_models or {}
+        self.inline_pkg = inline_pkg
+        self.depth = depth
         self.out = Outcome()
 
     # -- statements ------------------------------------------------------
@@ -381,17 +387,33 @@ class Interp:
             recv = self._safe_ev(fn.value)
             if isinstance(recv, PyModel):
                 return getattr(recv, fn.attr)(*args, **kwargs)
-            if isinstance(recv, (str, int, float)) and fn.attr in _STR_METHODS:
-                return getattr(recv, fn.attr)(*args)
+            if isinstance(recv, (str, int, float)) and not isinstance(recv, bool) and (
+                    fn.attr in _STR_METHODS or fn.attr in _NUM_DUNDERS):
+                try:
+                    return getattr(recv, fn.attr)(*args)
+                except (ValueError, TypeError, IndexError, ZeroDivisionError, OverflowError) as exc:
+                    raise ExcRaised(Ref(f'builtin:{type(exc).__name__}'))
             if isinstance(recv, dict) and fn.attr == 'get':
                 return recv.get(*args)
             if isinstance(recv, (list, tuple)) and fn.attr in ('index', 'count'):
                 return getattr(recv, fn.attr)(*args)
         text = ast.unparse(fn)
-        ref = self.a.res.resolve(fn, self.m) if isinstance(fn, (ast.Name, ast.Attribute)) else None
+        ref = None
+        if isinstance(fn, ast.Name) and fn.id in self.env:
+            bound = self.env[fn.id]
+            if isinstance(bound, Ref):
+                ref = bound.ref
+            elif callable(bound) and isinstance(bound, PyModel):
+                return bound(*args, **kwargs)
+        elif isinstance(fn, (ast.Name, ast.Attribute)):
+            ref = self.a.res.resolve(fn, self.m)
         for key in (ref, text):
             if key in self.call_models:
                 return self.call_models[key](*args, **kwargs)
+        if self.inline_pkg and ref and self.depth < 4:
+            om, onode = self.a.res.lookup(ref)
+            if isinstance(onode, ast.FunctionDef):
+                return self._inline(om, onode, args, kwargs)
         if isinstance(fn, ast.Name) and fn.id in _PURE and fn.id not in self.env:
             if fn.id == 'isinstance':
                 if self.isinstance_fn is None:
@@ -412,6 +434,24 @@ class Interp:
             except (ValueError, TypeError) as exc:
                 raise ExcRaised(Ref(f'builtin:{type(exc).__name__}'))
         raise Unmodelled(f'call {text}(...) at line {n.lineno}')
+
+    def _inline(self, om, fnode, args, kwargs):
+        params = [a.arg for a in fnode.args.posonlyargs + fnode.args.args]
+        defaults = fnode.args.defaults
+        env = {}
+        for p_, d in zip(params[len(params) - len(defaults):], defaults):
+            sub = Interp(self.a, om, {}, isinstance_fn=self.isinstance_fn, call_models=self.call_models)
+            env[p_] = sub.ev(d)
+        for p_, a in zip(params, args):
+            env[p_] = a
+        env.update(kwargs)
+        sub = Interp(self.a, om, env, effect_receivers=(), isinstance_fn=self.isinstance_fn,
+                     call_models=self.call_models, inline_pkg=True, depth=self.depth + 1)
+        out = sub.run(fnode.body)
+        self.out.events.extend(out.events)
+        if out.end == 'raise':
+            raise ExcRaised(out.value)
+        return out.value if out.end == 'return' else None
 
     def _safe_ev(self, node):
         try:
